@@ -9,7 +9,7 @@ ASSUMPTIONS = ["single-fault sequences: exactly one call fails, every other call
                "a failing call has no effect of its own (an open(O_TRUNC) that fails does not truncate)",
                "object states are compared semantically: inventories as JSON values, sidecars against the inventory they accompany, other files byte-wise"]
 CORRESPONDENCE = "Commit.execFault (lean/RocflModel/Commit.lean) vs `rocfl commit|upgrade` under strace fault injection"
-BUDGET = {"quick": dict(commits=3, seconds=200), "thorough": dict(commits=60, seconds=1700, all_calls=True)}
+BUDGET = {"quick": dict(commits=9, seconds=200), "thorough": dict(commits=60, seconds=1700, all_calls=True)}
 MODES = ["err", "stop"]
 RULE = ("commits (new object / new version / spec upgrade; duplicates and orphans to clean; three layouts; both staging placements) replayed once per mutating "
         "system call with that call failing (EIO; thorough also ENOSPC, EACCES, and every individual write) and once with SIGINT delivered at it; "
